@@ -1,0 +1,17 @@
+//go:build verif
+
+package collection
+
+import (
+	vh "github.com/craterdog/go-collection-framework/v4/verifhook"
+	syn "sync"
+)
+
+func verifLock(m *syn.Mutex)   { vh.Yield(vh.Lock, m) }
+func verifUnlock(m *syn.Mutex) { vh.Yield(vh.Unlock, m) }
+func verifSend(c *chan bool)   { vh.Yield(vh.Send, c) }
+func verifRecv(c *chan bool)   { vh.Yield(vh.Recv, c) }
+func verifClose(c *chan bool)  { vh.Yield(vh.Close, c) }
+func verifSpawn()              { vh.Yield(vh.Spawn, nil) }
+func verifEnter()              { vh.Yield(vh.Enter, nil) }
+func verifExit()               { vh.Yield(vh.Exit, nil) }
